@@ -136,7 +136,7 @@ class Job:
     def __init__(s, prop, name, src, root, units=(), defines=None, unwind=2, unwindset=None, flags=(),
                  backend='sat', timeout=600, mem_gb=12, tier='quick', stub=None, desc='', object_bits=None,
                  tv=20, covers=(), realloc_copy_max=None, extra_c=(), no_checks=False, arena=None,
-                 expect_fail=(), gxx_extra=(), unit_defines=None, gxx_units=(), gxx_exclude=(), cut='', unwind_re=None, ir_exclude=()):
+                 expect_fail=(), gxx_extra=(), unit_defines=None, gxx_units=(), gxx_exclude=(), cut='', unwind_re=None, ir_exclude=(), ptr_overflow=True):
         s.prop = prop; s.name = name; s.src = src; s.root = root; s.units = list(units)
         s.defines = dict(defines or {}); s.unwind = unwind; s.unwindset = dict(unwindset or {})
         s.flags = list(flags); s.backend = backend; s.timeout = timeout; s.mem_gb = mem_gb; s.tier = tier
@@ -144,7 +144,7 @@ class Job:
         s.desc = desc; s.object_bits = object_bits; s.tv = tv; s.covers = list(covers)
         s.realloc_copy_max = realloc_copy_max; s.extra_c = list(extra_c); s.no_checks = no_checks
         s.arena = arena; s.expect_fail = list(expect_fail); s.gxx_extra = list(gxx_extra)
-        s.unit_defines = dict(unit_defines or {}); s.gxx_units = list(gxx_units); s.gxx_exclude = list(gxx_exclude); s.cut = cut; s.unwind_re = dict(unwind_re or {}); s.ir_exclude = list(ir_exclude)
+        s.unit_defines = dict(unit_defines or {}); s.gxx_units = list(gxx_units); s.gxx_exclude = list(gxx_exclude); s.cut = cut; s.unwind_re = dict(unwind_re or {}); s.ir_exclude = list(ir_exclude); s.ptr_overflow = ptr_overflow
 
 def backend_flags(b, bdir):
     env = dict(os.environ)
@@ -239,7 +239,7 @@ def run_cbmc(job, gb, bdir, witness=False):
     cmd += ['--object-bits', str(job.object_bits or 10)]
     if witness or job.no_checks:
         cmd += ['--no-standard-checks']
-    else:
+    elif job.ptr_overflow:
         cmd += ['--pointer-overflow-check']
     cmd += job.flags
     rc, out, w, rss = sh(cmd, timeout=job.timeout, mem_gb=job.mem_gb, env=env)
